@@ -282,12 +282,36 @@ def handleSrv : List String → String
     | _, _, _, _, _ => "bad-op"
   | other => handleProv other
 
+/-! ### `srvredir`: the automatic HTTP→HTTPS redirect route of a server with one or two
+    host-matched routes (caddy.ProvisionContext, then the redirect server's ServeHTTP) -/
+
+/-- does the code provision the redirect route's host matcher?  (`false` = the code as it is:
+    autohttps.go builds `MatchHost(domains)` and "bypasses Provision") -/
+def redirProvisioned : Bool := false
+
+def handleRedir : List String → String
+  | ["srvredir", la, lb, envA, envB, hdr, rhost] =>
+    match parseList la, parseList lb, Hex.decode envA, Hex.decode envB, Hex.decode hdr, Hex.decode rhost with
+    | some l1, some l2, some a, some b, some x, some h =>
+      if !((l1 ++ l2).all (fun e => bracesOk e.length e && decide (e.length ≤ 255)) && !l1.isEmpty && a.all hostTokByte &&
+           b.all hostTokByte && x.all hostTokByte && h.all srvReqHostByte) then "ood"
+      else match redirCase redirProvisioned largeThreshold (if l2.isEmpty then [l1] else [l1, l2])
+          (fun k => if k == kEnvA then a else if k == kEnvB then b else [cBrace] ++ k ++ [cRBrace])
+          (fun k => if k == kEnvA then a else if k == kEnvB then b else if k == kHdr then x else [])
+          (fun k => (k == kEnvA && a.isEmpty) || (k == kEnvB && b.isEmpty)) h with
+        | .dup => "err:dup"
+        | .phase1Err => "err:phase1"
+        | .res true => "r:own-port"
+        | .res false => "r:default-port"
+    | _, _, _, _, _, _ => "bad-op"
+  | other => handleSrv other
+
 def handle : List String → String
   | ["pathpair", kind, pats, p1, e1, p2, e2] =>
     match parseList pats, Hex.decode p1, Hex.decode e1, Hex.decode p2, Hex.decode e2 with
     | some l, some p1, some e1, some p2, some e2 => handlePair kind l p1 e1 p2 e2
     | _, _, _, _, _ => "bad-op"
-  | other => handleSrv other
+  | other => handleRedir other
 
 /-! ### the counter-examples proved in `Witness.lean` -/
 
